@@ -1621,8 +1621,6 @@ bool ATan2::is_canonical(const RCP<const Basic> &num,
     // be evaluated (and is only non-canonical) when den is a number
     if (eq(*num, *zero))
         return not is_a_Number(*den);
-    if (eq(*num, *den) or eq(*num, *mul(minus_one, den)))
-        return false;
     RCP<const Basic> index;
     bool b = inverse_lookup(inverse_tct(), div(num, den), outArg(index));
     if (b)
